@@ -596,7 +596,7 @@ class FormatParser(object):
         i = 0
         setI = False
         c = self.getChar()
-        while c.isdigit():
+        while c and c in string.digits:
             j = i * 10
             j += int(c)
             if j >= 16:
